@@ -11,10 +11,10 @@ import (
 
 // Pair operations (in addition to the base alphabet).
 const (
-	OpPairReset uint8 = 200 + iota // Reset the first world and pair it with a fresh one
-	OpPairLoad                     // A = variant: dump the first world and load into a fresh (0..2: capacity increment 1,2,128) or reset (3) world
-	OpPairDump                     // take a dump and keep it while the world goes on
-	OpPairLoadKept                 // load the kept dump into a fresh world: it must reproduce the world as it was when the dump was taken
+	OpPairReset    uint8 = 200 + iota // Reset the first world and pair it with a fresh one
+	OpPairLoad                        // A = variant: dump the first world and load into a fresh (0..2: capacity increment 1,2,128) or reset (3) world
+	OpPairDump                        // take a dump and keep it while the world goes on
+	OpPairLoadKept                    // load the kept dump into a fresh world: it must reproduce the world as it was when the dump was taken
 )
 
 // PairCfg is a scenario that explores a base scenario, and after a Reset (or dump/load) continues in lock-step
